@@ -174,6 +174,9 @@ def onecs(ctx):
                     gl = eng.locks(g)
                     inner = [e for e in gl.acquire_events if e[2].mutex == "this.m_mutex"]
                     gsum = eng.handle_summary(g) if is_lock_carrier(g.ret) else None
+                    if inner and gsum is None and g.name == "do_pending_writes" and g.ret in ("void", None):
+                        continue    # the drain attempt every reader of deferred_guarded makes first: it applies queued work in a
+                                    # section of its own and hands nothing of the value back to this operation
                     if inner and gsum is None:
                         ctx.ob(rid, False, f.loc(st), "%s does not open a second critical section through %s()"
                                % (f.name, g.name), "callee acquires m_mutex again", fn=f.label, inst=f.qname)
